@@ -353,6 +353,68 @@ class StringSub(Family):
         return Result('ok', True, None, calls)
 
 
+class CreditTables(Family):
+    """arbitrary item credits: every table of a small alphabet, graded by the real unordered matching"""
+    timeout = 30.0
+    EXPECTED = ['p', 'q', 'r', 's', 'u']
+    SUBMITTED = ['t0', 't1', 't2', 't3', 't4']
+
+    def __init__(self, n_exp, n_sub, alphabet, tiers=('quick', 'thorough')):
+        self.n_exp, self.n_sub, self.alphabet, self.tiers = n_exp, n_sub, tuple(alphabet), tiers
+        self.name = 'credit_tables_%dx%d_%s' % (n_exp, n_sub, 'bin' if len(alphabet) == 2 else 'x'.join('%g' % a for a in alphabet))
+        self.rule = ('unordered list of %d expected items, %d distinct submitted items, EVERY table of item credits over %r '
+                     '(%d tables) x partial_credit on/off, answer credit 0.5 with message; oracle = closed-form formula with a '
+                     'brute-force optimal assignment (the table is handed to the author-level table subgrader)'
+                     % (n_exp, n_sub, list(alphabet), len(alphabet) ** (n_exp * n_sub)))
+
+    def setup(self, tier):
+        self.g = {}
+        for pc in (True, False):
+            sub = TableGrader(table={})
+            g = SingleListGrader(answers={'expect': self.EXPECTED[:self.n_exp], 'grade_decimal': 0.5, 'msg': 'AM'},
+                                 subgrader=sub, ordered=False, partial_credit=pc, delimiter=',')
+            self.g[pc] = (g, g.config['subgrader'].config['table'])
+
+    def cases(self, tier):
+        if tier not in self.tiers:
+            return iter(())
+        return iter(range(len(self.alphabet) ** (self.n_exp * self.n_sub)))
+
+    def table(self, case):
+        k, out = case, {}
+        for i in range(self.n_exp):
+            for j in range(self.n_sub):
+                k, d = divmod(k, len(self.alphabet))
+                if self.alphabet[d]:
+                    out[(self.EXPECTED[i], self.SUBMITTED[j])] = self.alphabet[d]
+        return out
+
+    def describe(self, case):
+        return {'expected': self.EXPECTED[:self.n_exp], 'submission': ','.join(self.SUBMITTED[:self.n_sub]),
+                'item_credit_table(expected, submitted)': {'%s,%s' % k: v for k, v in self.table(case).items()}}
+
+    def check(self, case):
+        T = self.table(case)
+        specs = [[(e, 1)] for e in self.EXPECTED[:self.n_exp]]
+        submitted = self.SUBMITTED[:self.n_sub]
+        text = ','.join(submitted)
+        outcome = None
+        for pc in (True, False):
+            g, live = self.g[pc]
+            live.clear()
+            live.update(T)
+            got = call(g, None, text)
+            bracket, must, may = formula(specs, submitted, False, pc, credit=lambda spec, s2: T.get((spec[0][0], s2), 0))
+            where = 'expected %r, submission %r, item credits %r, unordered, partial_credit=%s' % (
+                self.EXPECTED[:self.n_exp], text, {'%s,%s' % k: v for k, v in T.items()}, pc)
+            v = judge(got, 0.5 * bracket, must, may, 'AM', where, 'tables')
+            if v:
+                return Result('wrong', True, v, 2)
+            if pc:
+                outcome = 'g=%.4g' % (0.5 * bracket)
+        return Result(outcome, bool(T), None, 2)
+
+
 def families(tier):
     return [
         Flat('flat_comma_list', ',', 'list', 1),
@@ -365,4 +427,9 @@ def families(tier):
         TwoAnswerLists(),
         Nested(),
         StringSub(),
+        CreditTables(4, 4, (0, 1)),
+        CreditTables(3, 3, (0, 0.25, 0.5, 1)),
+        CreditTables(3, 4, (0, 0.5, 1), tiers=('thorough',)),
+        CreditTables(4, 3, (0, 0.5, 1), tiers=('thorough',)),
+        CreditTables(5, 4, (0, 1), tiers=('thorough',)),
     ]
